@@ -35,8 +35,11 @@ def run(check):
                   "wrong ATP version, invalid schema, error from Close, dead connection, remote schema mismatch, renamed remote step}) on 5 shapes; "
                   "(b) every single-failure position/kind of 6 shapes; (c) cancellation of the caller's context at every logged event index of "
                   "finishing programs and at every certain plugin-boundary event of never-ending programs (obeying / ignoring / without cancel handler, "
-                  "blocked deployment, foreach in progress); oracle at execute-return / prepare-return: deploy-ok minus conn-close == 0, no plugin-side "
-                  "execution open, no goroutine with an engine or ATP-client frame left after a settle window (goroutine census from runtime.Stack); "
+                  "blocked deployment, foreach in progress; deployments that take 15-40 ms to close), (d) a running step stopped by its stop condition and closed by force by "
+                  "its provider while its crash report ends the run, (e) invalid input documents, (f) every goroutine-start / wait-group point delayed in runs "
+                  "that do not need the delayed step; oracle at execute-return / prepare-return: deploy-ok minus conn-close == 0, no plugin-side "
+                  "execution open, no goroutine blocked in engine code at the instant of return and none with an engine or ATP-client frame left after a settle "
+                  "window (goroutine census from runtime.Stack); "
                   "non-trivial = a fault, failure or cancellation was injected; distinct = (shape, injected fault or cancel point)")
     check.assumptions = ["all plugin-side goroutines belong to the harness and are excluded by frame name",
                          "a goroutine still present 1 s after return is a leak; engine timers relevant here (10 ms detector retries) are far shorter"]
